@@ -520,6 +520,24 @@ func (x *Exec) havocLoc(st *State, env *specEnv, loc string, c *Contract) {
 		}
 	case mapLoc:
 		x.havocKeyPrefix(st, "map:")
+	case streamLoc:
+		for _, tn := range []string{"bufBitStream", "randomBitStream"} {
+			nt := x.namedType(tn)
+			su := under(nt).(*types.Struct)
+			// element arrays of the recording first (at the arrays the stream currently points to)
+			rb := st.embRef(tn, "recordedBits", l.ref)
+			rbt := x.namedType("recordedBits")
+			rsu := under(rbt).(*types.Struct)
+			for i := 0; i < rsu.NumFields(); i++ {
+				if sl, ok := under(rsu.Field(i).Type()).(*types.Slice); ok {
+					cur := st.loadField(nil, rb, rsu, "recordedBits", i).(*SliceV)
+					st.havocElems(cur.Arr, sl.Elem())
+				}
+			}
+			for i := 0; i < su.NumFields(); i++ {
+				st.havocField(l.ref, su, tn, i)
+			}
+		}
 	default:
 		panic(unsupported{fmt.Sprintf("modifies location %q (%T)", loc, lv)})
 	}
